@@ -15,7 +15,8 @@ Print Assumptions checker_sound.
    or all reads waiting for the committed frontier (mode = false) - is linearizable, provided no
    call was answered from an index state other than the current one with a different response
    (m_split = []: no Get whose two look-ups on the live index straddled an indexing step, no
-   SinceTx > 0 snapshot read served from a reused older snapshot).  Writes take effect at their commit step,
+   SinceTx > 0 snapshot read served from a reused older snapshot, no index compaction that moved
+   the index back).  Writes take effect at their commit step,
    reads after the transaction whose index state they returned. *)
 Theorem kv_linearizable_partial : forall (mode : bool) (m : mstate),
   reach mode m -> m_split m = [] -> linearizable (m_hist m).
@@ -40,14 +41,30 @@ Theorem snapshot_since_refuted : exists (mode : bool) (m : mstate),
 Proof. exact snapshot_since_refuted_proof. Qed.
 Print Assumptions snapshot_since_refuted.
 
-(* Conditional writes are atomic: in every step of the machine, a write is committed only if all its
+(* Third departure, again in the machine as the code has it: CompactIndex re-opens the index from a
+   copy dumped from an older snapshot while the hub that every WaitForIndexingUpto looks at keeps its
+   high-water mark; until re-indexing catches up, waits succeed on a stale index.  Witness: after
+   Set(k0:=1) was acknowledged and the index compacted, Set(k0:=2) with KeyMustNotExist(k0) is
+   committed although its precondition is false on the committed state it is appended to; the
+   resulting history (two Sets, nothing else) is not linearizable.  Seen on the Go code in the
+   thorough tier (background CompactIndex; known finding). *)
+Theorem compaction_refuted :
+  exists (mode : bool) (m0 : mstate) (i : nat) (w : wop) (t : tx) (m1 m : mstate),
+    reach mode m0 /\ mstep mode m0 (LCommit i w t) m1 /\ pre_all (m_committed m0) w = false /\
+    reach mode m /\ only_sets (m_hist m) /\ ~ linearizable (m_hist m).
+Proof. exact compaction_refuted_proof. Qed.
+Print Assumptions compaction_refuted.
+
+(* Conditional writes are atomic: in every step of the machine from a reachable state, as long as no
+   index compaction moved the index back and no call was answered from a stale index state
+   (m_split = []), a write is committed only if all its
    preconditions (KeyMustExist / KeyMustNotExist / KeyNotModifiedAfterTx) hold on the committed
    state it is appended to (the state immediately preceding it in commit order), it is refused
    with the precondition verdict only if one of them is false on exactly that state and then the
    committed state is unchanged, and nothing but a commit step changes the committed state - for
    every interleaving of racing writers. *)
 Theorem precondition_atomic : forall (mode : bool) (m : mstate) (l : label) (m' : mstate),
-  mstep mode m l m' ->
+  reach mode m -> mstep mode m l m' -> m_split m' = [] ->
   (forall i w t, l = LCommit i w t ->
      apply (m_committed m) w = Ok t /\ pre_all (m_committed m) w = true /\
      m_committed m' = m_committed m ++ [t] /\
